@@ -24,6 +24,8 @@ pub struct Report {
     pub inconclusive: Vec<String>,
     pub notes: Vec<String>,
     pub extra: Vec<(String, J)>,
+    /// JSONL event log lines (bounded), checked offline by offline/check_trace.py
+    pub trace: Vec<String>,
     /// names of completely enumerated sub-spaces
     pub exhaustive_spaces: Vec<String>,
     /// true only when the property's whole stated space was enumerated
@@ -31,6 +33,7 @@ pub struct Report {
 }
 
 pub const DISTINCT_CAP_PER_SHARD: usize = 1 << 18;
+pub const TRACE_CAP: usize = 200_000;
 
 impl Default for Report {
     fn default() -> Self {
@@ -52,6 +55,7 @@ impl Report {
             inconclusive: Vec::new(),
             notes: Vec::new(),
             extra: Vec::new(),
+            trace: Vec::new(),
             exhaustive_spaces: Vec::new(),
             exhaustive: false,
         }
@@ -104,6 +108,11 @@ impl Report {
             self.findings.insert(key.to_string(), Finding { key: key.to_string(), desc: desc(), case: case(), count: 1 });
         }
     }
+    pub fn trace_event(&mut self, j: &J) {
+        if self.trace.len() < TRACE_CAP {
+            self.trace.push(j.compact());
+        }
+    }
     pub fn note(&mut self, s: impl Into<String>) {
         let s = s.into();
         if !self.notes.contains(&s) {
@@ -146,6 +155,11 @@ impl Report {
         for (k, v) in o.extra {
             if !self.extra.iter().any(|(k2, _)| *k2 == k) {
                 self.extra.push((k, v));
+            }
+        }
+        for l in o.trace {
+            if self.trace.len() < TRACE_CAP {
+                self.trace.push(l);
             }
         }
         for s in o.exhaustive_spaces {
